@@ -32,6 +32,11 @@ def correspondence(ctx, corr):
     common.run_family(ctx, corr, 'c02_exhaustive', {'maxlen': 2 if ctx.quick else 3}, nshards=16 if ctx.quick else 64)
     corr.exhaustive = True
     common.run_family(ctx, corr, 'c02_random', {'count': 150 if ctx.quick else 3000})
+    part_check_suite(ctx, corr)
+
+
+def part_check_suite(ctx, corr, quick_n=1500, full_n=20000):
+    """DoctestPart.check over trailing outputs, values and flag settings vs the model op `part_check`"""
     # unit level: DoctestPart.check over trailing outputs
     from xdoctest import doctest_part, checker, directive, constants
     rng = ctx.sub_rng('part_check')
@@ -39,14 +44,14 @@ def correspondence(ctx, corr):
     cases = []
     NAMES = ['ELLIPSIS', 'NORMALIZE_WHITESPACE', 'IGNORE_WHITESPACE', 'NORMALIZE_REPR', 'DONT_ACCEPT_BLANKLINE', 'IGNORE_EXCEPTION_DETAIL']
     FLAGSETS = ['110100', '110100', '000010', '100000', '010100', '000100', '001000', '000000', '111100']
-    for _ in range(1500 if ctx.quick else 20000):
-        outs = [rng.choice(['a\n', 'b\n', '', 'c\nd\n', '1\n']) for _ in range(rng.randint(0, 3))]
-        out = rng.choice(['a\n', '', 'b\n', '1\n', 'c\nd\n'])
+    for _ in range(quick_n if ctx.quick else full_n):
+        outs = [rng.choice(['a\n', 'b\n', '', 'c\nd\n', '1\n', 'x...b\n']) for _ in range(rng.randint(0, 3))]
+        out = rng.choice(['a\n', '', 'b\n', '1\n', 'c\nd\n', '...b\n', 'x...b\n'])
         ev = rng.choice([None, 1, 'a', 'BAD', 'p\nq', "it's", 1.5, 'a  b', 'a  b'])
         joined = ''.join(outs) + out
         want = rng.choice([joined.strip() or 'a', out.strip() or 'zz', 'a', 'b\na', "'a'", '1', 'c d', 'zz', 'b',
                            repr(ev) if ev not in (None, 'BAD') else 'a', str(ev) if ev not in (None, 'BAD') else '1',
-                           "'a b'", "'a...'", "'ab'", "'a...b'"])
+                           "'a b'", "'a...'", "'ab'", "'a...b'", '...b', '...' + (out.strip() or 'q'), '...', 'x...b'])
         fl = rng.choice(FLAGSETS)
         cases.append((outs, out, ev, want, fl))
         evs = 'N' if ev is None else ('R' if ev == 'BAD' else 'V' + enc(repr(ev)))
